@@ -201,14 +201,23 @@ class Driver:
     def __init__(self):
         self.bin = DRIVER_BIN
 
-    def run(self, lines, timeout=1800):
+    def run(self, lines, timeout=1800, shards=None):
+        """answers in the order of the requests; large batches are split over several driver processes"""
         if not lines:
             return []
+        if shards is None:
+            shards = 8 if len(lines) >= 256 else 1
+        if shards > 1:
+            from concurrent.futures import ThreadPoolExecutor
+            k = (len(lines) + shards - 1) // shards
+            parts = [lines[i:i + k] for i in range(0, len(lines), k)]
+            with ThreadPoolExecutor(max_workers=len(parts)) as ex:
+                outs = list(ex.map(lambda part: self.run(part, timeout=timeout, shards=1), parts))
+            return [x for o in outs for x in o]
         data = ("\n".join(lines) + "\n").encode()
 
         def big_stack():
-            # the models are structurally recursive over octet lists (one frame per octet in the compiled code): a
-            # 16 MiB message of the thorough tier needs far more than the default 8 MiB stack
+            # the models are structurally recursive over octet lists: very long messages need more than the default stack
             import resource
             soft, hard = resource.getrlimit(resource.RLIMIT_STACK)
             want = 16 * 1024 ** 3
